@@ -67,6 +67,9 @@ type PodP struct {
 	Bare bool `json:"bare,omitempty"`
 	// AltRef: the controller reference was written through the other served API version (v1alpha1); same UID
 	AltRef bool `json:"alt_ref,omitempty"`
+	// NoClaimVolumes: the pod's volumes do not cover the set's claim templates (a pod made by hand, or by an earlier
+	// incarnation of the set with fewer templates): the controller repairs its storage in place
+	NoClaimVolumes bool `json:"no_claim_volumes,omitempty"`
 }
 
 // ORev: an orphan (unowned) revision carrying the selector labels and/or the upgrade marker.
@@ -136,11 +139,12 @@ const (
 	OpStatusRestored   // the status is overwritten from elsewhere (helper.Upgrade copies the built-in set's status verbatim, a backup is restored): observedGeneration runs ahead of metadata.generation, counters as in a/b
 	OpPodSwapped       // pod a loses its pod-name label (the pod cache sees that), then is deleted and replaced - API only, the cache lags - by a same-named pod that another controller owns
 	OpClaimLost        // the volume behind claim a is gone: the claim's status.phase becomes Lost (it stays the ordinal's claim)
+	OpTouchRev         // somebody writes ControllerRevision a of the namespace (an annotation): its resourceVersion moves, nothing else
 	numOpKinds
 )
 
 var opNames = [...]string{"reconcile", "kubelet", "refreshAll", "refreshPod", "refreshSet", "editReplicas", "slotAdd", "slotRemove",
-	"editTemplate", "editPartition", "editMeta", "userDeletePod", "settle", "scaleInAt", "pause", "markDeleting", "restart", "editLimit", "editStrategy", "setRecreate", "setRemove", "addOrphanPod", "orphanPod", "claimTerminating", "editSlotsRaw", "relabelPod", "addStrayPod", "claimRemove", "pauseSeen", "statusRestored", "podSwapped", "claimLost"}
+	"editTemplate", "editPartition", "editMeta", "userDeletePod", "settle", "scaleInAt", "pause", "markDeleting", "restart", "editLimit", "editStrategy", "setRecreate", "setRemove", "addOrphanPod", "orphanPod", "claimTerminating", "editSlotsRaw", "relabelPod", "addStrayPod", "claimRemove", "pauseSeen", "statusRestored", "podSwapped", "claimLost", "touchRev"}
 
 // Fault kinds for a reconcile op
 const (
@@ -588,8 +592,19 @@ func BuildWorld(rep Rep, w *World) *Sys {
 		if pp.AltRef && len(p.OwnerReferences) == 1 {
 			p.OwnerReferences[0].APIVersion = "apps.pingcap.com/v1alpha1"
 		}
+		var claimVolumes []corev1.Volume
+		if pp.NoClaimVolumes {
+			claimVolumes = p.Spec.Volumes
+			var keep []corev1.Volume
+			for _, v := range p.Spec.Volumes {
+				if v.PersistentVolumeClaim == nil {
+					keep = append(keep, v)
+				}
+			}
+			p.Spec.Volumes = keep
+		}
 		c.Put(p)
-		for _, v := range p.Spec.Volumes {
+		for _, v := range append(claimVolumes, p.Spec.Volumes...) {
 			if v.PersistentVolumeClaim != nil && c.PVC(NS, v.PersistentVolumeClaim.ClaimName) == nil {
 				c.Put(&corev1.PersistentVolumeClaim{ObjectMeta: metav1.ObjectMeta{Name: v.PersistentVolumeClaim.ClaimName, Namespace: NS, Labels: w.Spec.selectorLabels()}})
 			}
@@ -971,6 +986,22 @@ func (s *Sys) envOp(k, a, b int) {
 				c.Put(pvc)
 				s.logf("user: claim %s deleted (terminating, held by its finalizer)", pvc.Name)
 			}
+		}
+	case OpTouchRev:
+		var revs []*appsv1.ControllerRevision
+		for _, rv := range c.Revs() {
+			if rv.Namespace == NS {
+				revs = append(revs, rv)
+			}
+		}
+		if len(revs) > 0 {
+			rv := revs[abs(a)%len(revs)]
+			if rv.Annotations == nil {
+				rv.Annotations = map[string]string{}
+			}
+			rv.Annotations["touched"] = rv.ResourceVersion
+			c.Put(rv)
+			s.logf("somebody annotated revision %s (resourceVersion moves)", rv.Name)
 		}
 	case OpClaimLost:
 		if claims := c.PVCs(); len(claims) > 0 {
